@@ -228,7 +228,11 @@ def machine_spec(
     for c in cbs:  # defs sharing one function agree on everything
         f = first_def[(c["name"], c["prov"])]
         c["async"], c["yields"] = f["async"], f["yields"]
-    return {"states": states, "trans": trans, "cbs": cbs, "guards": gdefs, "events": events}
+    spec = {"states": states, "trans": trans, "cbs": cbs, "guards": gdefs, "events": events}
+    if sends and any(c["sends"] for c in cbs) and draw(st.integers(0, 4)) == 0:
+        # callbacks that send also attach a (callback-less) listener first: attaching must not disturb the processing in progress
+        spec["attach_in_callbacks"] = True
+    return spec
 
 
 def is_async_spec(spec, providers=None, instance_cbs=True):
